@@ -246,6 +246,21 @@ def bounded(tier, seed):
 def replay(inp):
     import hszinc
     k = inp.get('kind')
+    if k in ('framing_doc', 'framing'):
+        # a document shape on which a framing obligation failed: respell a few catalogue grids with every framing and compare
+        rnd = random.Random(0)
+        pool = [g for _, g in list(VC.grids('quick', 0))[:40]]
+        fails = []
+        for how in ({}, {'nl': '\r\n'}, {'final': False}, {'extra_nl': 2}, {'nl': '\r\n', 'final': False}):
+            for i in range(0, len(pool) - 2, 3):
+                r, doc = check_doc(pool[i:i + 3], rnd, dict(how))
+                if r:
+                    fails.append(r)
+            for g in pool[:6]:
+                r, doc = check_doc([g], rnd, dict(how, single=True))
+                if r:
+                    fails.append(r)
+        return {'reproduced': bool(fails), 'detail': fails[:3]}
     if k == 'doc':
         how = inp.get('how', {})
         data = inp['text']
